@@ -217,8 +217,27 @@ def c06(chk, tier):
                                   LenVar=lv),
                          invariants=[], on_value=on, workers=4, timeout=3600)
                 batch.run()
+        # the same modifications at the far end of the counter range (receiver at 2^32-1, 2^64-2, 2^64-1, latched)
+        for aead in (1, 2, 3):
+            batch = TransitionBatch(ses, label="tamper at boundary aead=%d" % aead)
+
+            def onb(tr, aead=aead, batch=batch):
+                l = tr["last"]
+                if l["op"] != "open":
+                    return
+                batch.add(tr)
+                d = l["plain"]["d"]
+                if d["k"] == "msg" and l["kind"] == "ok":
+                    accepted_controls[0] += 1
+                chk.case(("tb", aead, d["k"], d["i"], d["j"], d["n"], l["form"], tuple(l["pre"]["seq"]), l["pre"]["ovf"], l["kind"]))
+            generate(chk, "MC_Seq", "MC_Seq.cfg", "gen_tr_edge_%d" % aead,
+                     seq_over(AeadC=aead, Starts='"edge"', Menu='"full"' if thorough else '"small"', Emit=True, MaxSeals=2,
+                              MaxOpens=1, LenVar=aead),
+                     invariants=[], on_value=onb, workers=4, timeout=3600)
+            batch.run()
         if accepted_controls[0] == 0:
             raise ToolError("no positive control (accepted verbatim message) in the run")
+        c06_short_sweep(chk, ses, thorough)
         c06_single_shot(chk, ses, thorough)
         traces(chk, "seq", 10 if thorough else 1, "random tampering", nsteps=1500 if thorough else 300)
     finally:
@@ -232,6 +251,34 @@ def c06(chk, tier):
 
 def c06_single_shot(chk, ses, thorough):
     pass
+
+
+def c06_short_sweep(chk, ses, thorough):
+    """Truncation below the tag length, many instances: a sealed EMPTY plaintext is just a tag; the model's transition
+    'deliver it with its last 1..3 bytes removed' is replayed with many different seeded keys / nonces / aads, i.e. many
+    different tags.  (A receiver that pads a short input instead of refusing it accepts about 1 in 256 of these.)"""
+    reps = 2000 if thorough else 500
+    for aead in (1, 2, 3):
+        picked = []
+
+        def on(tr):
+            l = tr["last"]
+            if l["op"] != "open" or l["form"] != "alloc":
+                return
+            d = l["plain"]["d"]
+            if d["k"] == "trunc" and d["n"] in (1, 2, 3) and d["i"] == 1 and tuple(l["pre"]["seq"]) == (0,) * 8:
+                picked.append(transition_steps(tr))
+        generate(chk, "MC_Seq", "MC_Seq.cfg", "gen_short_%d" % aead,
+                 seq_over(AeadC=aead, Starts='"zero"', Menu='"integrity"', Emit=True, MaxSeals=1, MaxOpens=1, LenVar=0),
+                 invariants=[], on_value=on, workers=2)
+        if len(picked) < 3:
+            raise ToolError("short-sweep transitions not generated")
+        for st in picked:
+            for j in range(reps):
+                if not ses.replay(st, label="truncated tag-only message aead=%d" % aead, sample=False,
+                                  leaf_seed=seed() * 100003 + j):
+                    return
+            chk.case(("short-sweep", aead, json.dumps(st[-1]["plain"]), reps))
 
 
 # ----------------------------------------------------------------------- MC_Setup based checks
